@@ -45,6 +45,7 @@ def setup(ctx):
     ctx.require("monitor", "roundtrip_hosts", 60)
     ctx.require("monitor", "syscall_injections", 10)
     ctx.require("monitor", "failed_then_next_sequences", 40)
+    ctx.require("monitor", "after_states_checked_against_model", 20)
     ctx.require("monitor", "roundtrip_hosts_with_later_last_seen", 20)
     ctx.require("monitor", "outcome_before", 50)
     ctx.require("monitor", "outcome_after", 27)
@@ -169,6 +170,20 @@ def good_entry(host, port, fpi, first="2020-01-01T00:00:00+00:00"):
     return (f"{host}:{port}", {"hostname": host, "port": port, "fingerprint": fp(fpi), "first_seen": first, "last_seen": "2021-01-01T00:00:00+00:00"})
 
 
+def model_import(before, entries, merge, update_conflicts):
+    """Reference semantics of a *successful* import (rows as (host, port, fp, first_seen))."""
+    rows = {} if not merge else {(r[0], r[1]): (r[2], r[3]) for r in before}
+    # the file is a TOML table: two entries under the same key collapse into one (the later value, at the
+    # earlier position), exactly what write_import()'s dict does
+    for key, e in dict(entries).items():
+        k = (e["hostname"], e["port"])
+        if k not in rows:
+            rows[k] = (e["fingerprint"], e["first_seen"])
+        elif rows[k][0] != e["fingerprint"] and update_conflicts:
+            rows[k] = (e["fingerprint"], rows[k][1])
+    return sorted((h, p, fp_, fs) for (h, p), (fp_, fs) in rows.items())
+
+
 def make_ops(tmp, nstore):
     """List of (name, mode, callable(db)) operations; import files are written into tmp."""
     from pathlib import Path
@@ -194,7 +209,21 @@ def make_ops(tmp, nstore):
         m = "merge" if merge else "replace"
         ops.append((f"import-ok", m, lambda db, merge=merge: db.import_toml(Path(f_ok), merge=merge)))
         ops.append((f"import-ok-update-conflicts", m, lambda db, merge=merge: db.import_toml(Path(f_ok), merge=merge, on_conflict=lambda *a: True)))
+        MODELS[(nstore, "import-ok", m)] = lambda before, merge=merge, entries=list(entries): model_import(before, entries, merge, False)
+        MODELS[(nstore, "import-ok-update-conflicts", m)] = lambda before, merge=merge, entries=list(entries): model_import(before, entries, merge, True)
+    MODELS[(nstore, "trust-new", "-")] = lambda before: sorted(before + [("new.example", 1965, fp(1), "*")])
+    MODELS[(nstore, "revoke-missing", "-")] = lambda before: sorted(before)
+    MODELS[(nstore, "clear", "-")] = lambda before: []
+    if nstore:
+        MODELS[(nstore, "trust-existing-other-cert", "-")] = lambda before: sorted((r[0], r[1], fp(2) if (r[0], r[1]) == (HOSTS[0], 1965) else r[2], r[3]) for r in before)
+        MODELS[(nstore, "verify-match", "-")] = lambda before: sorted(before)
+        MODELS[(nstore, "verify-changed", "-")] = lambda before: sorted(before)
+        MODELS[(nstore, "revoke", "-")] = lambda before: sorted(r for r in before if (r[0], r[1]) != (HOSTS[0], 1965))
+        MODELS[(nstore, "revoke-by-hostname", "-")] = lambda before: sorted(r for r in before if r[0] != HOSTS[0])
     return ops
+
+
+MODELS = {}
 
 
 def make_db(dbpath):
@@ -235,6 +264,17 @@ def enumerate_faults(ctx, tmp, nstore, name, mode, op):
     before = dump(dbpath)
     nb, trace, after_raw = count_boundaries(dbpath, op)
     after = normalise(after_raw, before)
+    # the uninterrupted run itself must produce the operation's intended effect (reference semantics),
+    # otherwise "after" would just be whatever the implementation does
+    mfn = MODELS.get((nstore, name, mode))
+    if mfn is not None:
+        ctx.count("monitor", "after_states_checked_against_model")
+        want = normalise(mfn(list(before)), before)
+        if after != want:
+            lost = [r for r in want if r not in after]
+            extra = [r for r in after if r not in want]
+            ctx.violation(f"wrong-after-state:op={name}:mode={mode}", f"uninterrupted {name} ({mode}) on a store of {nstore} hosts produced {len(after)} rows, intended effect has {len(want)} ({len(lost)} missing, {len(extra)} unexpected)",
+                          {"operation": name, "mode": mode, "store_hosts": nstore, "before": before, "observed_after": after, "intended_after": want})
     ctx.count("boundaries", f"{name}:{mode}:store={nstore}:n={nb}")
     for kind in ("crash", "error"):
         for k in range(1, nb + 1):
